@@ -612,7 +612,7 @@ def text_case(col, labels, level):
 
 def w_text1(task, col):
     """1-octet labels (all) and 2-octet labels with the given first octets."""
-    _, firsts, do_single = task
+    _, firsts, do_single, both = task
     if do_single:
         for c in range(256):
             for tail in ((), (b"",), (b"b",), (b"b", b"")):
@@ -621,7 +621,8 @@ def w_text1(task, col):
         for b in range(256):
             l = bytes([a, b])
             text_case(col, (l, b""), 1)
-            text_case(col, (l,), 0)
+            if both:
+                text_case(col, (l,), 0)
     col.sample({"text1": "2-octet labels with first octet in %r" % (list(firsts),)}, limit=1)
 
 
@@ -644,6 +645,7 @@ def w_textpool(task, col):
 
 
 PARSE_ALPHA = [b"\\", b".", b"0", b"2", b"5", b"6", b"9", b"a", b"@"]
+PARSE_ALPHA_LONG = [b"\\", b".", b"2", b"5", b"6", b"a"]
 PARSE_ORIGINS = [None, R.ROOT]
 
 
@@ -661,10 +663,10 @@ def parse_case(col, text, origin):
 
 
 def w_parse(task, col):
-    _, prefix, maxlen = task
+    _, prefix, minlen, maxlen, alpha = task
     pre = b"".join(prefix)
-    for k in range(0, maxlen - len(prefix) + 1):
-        for rest in itertools.product(PARSE_ALPHA, repeat=k):
+    for k in range(max(0, minlen - len(prefix)), maxlen - len(prefix) + 1):
+        for rest in itertools.product(alpha, repeat=k):
             text = pre + b"".join(rest)
             for o in PARSE_ORIGINS:
                 parse_case(col, text, o)
@@ -819,6 +821,7 @@ def w_compress3(task, col):
 
 
 WIRE_ALPHA = [0x00, 0x01, 0x02, 0x3F, 0x40, 0x80, 0xBF, 0xC0, 0xC1, 0xFF, 0x61]
+WIRE_ALPHA_LONG = [0x00, 0x01, 0x02, 0x40, 0xC0, 0xC1, 0x61]
 
 
 def wire_case(col, msg, offset):
@@ -834,11 +837,11 @@ def wire_case(col, msg, offset):
 
 
 def w_wire(task, col):
-    _, prefix, maxlen = task
+    _, prefix, minlen, maxlen, alpha = task
     pre = bytes(prefix)
     kinds = set()
-    for k in range(0, maxlen - len(pre) + 1):
-        for rest in itertools.product(WIRE_ALPHA, repeat=k):
+    for k in range(max(0, minlen - len(pre)), maxlen - len(pre) + 1):
+        for rest in itertools.product(alpha, repeat=k):
             msg = pre + bytes(rest)
             for off in range(len(msg) + 1):
                 kinds.add(wire_case(col, msg, off))
@@ -884,7 +887,8 @@ def w_graph(task, col):
             for start in range(K):
                 kinds.add(wire_case(col, msg, base + 2 * start))
             col.count("graphs")
-            col.nontrivial(("graph", cells, base))
+            if K <= 6 and base == 0:
+                col.nontrivial(("graph", cells))
     col.sample({"graph_cells": [first] + list(rest), "K": K}, limit=1)
 
 
@@ -928,7 +932,7 @@ def work(task, col):
 
 def run(ctx):
     q = ctx.quick
-    alpha3 = ALPHA3_T
+    alpha3 = ctx.pick(ALPHA3_Q, ALPHA3_T)
     alpha4 = ctx.pick(ALPHA4_Q, ALPHA4_T)
     parse_len = ctx.pick(6, 7)
     wire_len = ctx.pick(5, 6)
@@ -937,7 +941,7 @@ def run(ctx):
     tasks = []
     # (a) text
     for i in range(0, 256, 4):
-        tasks.append(("text1", tuple(range(i, i + 4)), i == 0))
+        tasks.append(("text1", tuple(range(i, i + 4)), i == 0, not q))
     for a in alpha3:
         tasks.append(("textk", tuple(alpha3), 3, a))
     for a in alpha4:
@@ -947,7 +951,10 @@ def run(ctx):
     # text -> name verdicts
     pl = 2
     for pre in itertools.product(PARSE_ALPHA, repeat=pl):
-        tasks.append(("parse", pre, parse_len))
+        tasks.append(("parse", pre, pl, parse_len, tuple(PARSE_ALPHA)))
+    if not q:
+        for pre in itertools.product(PARSE_ALPHA_LONG, repeat=pl):
+            tasks.append(("parse", pre, parse_len + 1, parse_len + 1, tuple(PARSE_ALPHA_LONG)))
     tasks.append(("parse_short", pl - 1))
     for lo in range(0, 1000, 50):
         tasks.append(("parse_ddd", lo, lo + 50))
@@ -969,7 +976,10 @@ def run(ctx):
                 tasks.append(("compress3", first, second, 3, tuple(cbases)))
     # (d) wire
     for pre in itertools.product(WIRE_ALPHA, repeat=2):
-        tasks.append(("wire", pre, wire_len))
+        tasks.append(("wire", pre, 2, wire_len, tuple(WIRE_ALPHA)))
+    if not q:
+        for pre in itertools.product(WIRE_ALPHA_LONG, repeat=2):
+            tasks.append(("wire", pre, wire_len + 1, wire_len + 1, tuple(WIRE_ALPHA_LONG)))
     tasks.append(("wire_short", 1))
     for graph_k, graph_bases in graphs:
         for first in ["L", "T"] + list(range(graph_k)):
@@ -981,7 +991,8 @@ def run(ctx):
         "least one octet outside [A-Za-z0-9_-] (needs escaping or is special); parse = per 2-symbol prefix and per "
         "\\DDD / \\X value; limits = distinct label-length composition x fill octet; compress = distinct (name "
         "sequence, base, cut) whose output contains at least one pointer; wire = distinct (2-octet prefix, reference "
-        "verdict class) and every distinct pointer graph; counts of individual non-plain cases are in "
+        "verdict class) and every distinct pointer graph of <= 6 cells (larger graphs are only counted, see the "
+        "count 'graphs'); counts of individual non-plain cases are in "
         "wire_cases_pointer_or_error / parse_cases_with_escape.")
     ctx.assume("IDNA/Unicode text (from_unicode, to_unicode, non-ASCII str input) is outside this check: C01 is "
                "about master-file text and wire format")
@@ -991,12 +1002,13 @@ def run(ctx):
                "report the furthest octet read as consumed; counted as outcome ok-overlap-consumed-furthest, not "
                "judged (the property does not state a consumed count)")
     ctx.extra.update({
-        "label1_octets": 256, "label2_labels": 65536,
+        "label1_octets": 256, "label2_labels": 65536, "label2_relativity": "absolute" if q else "absolute and relative",
         "label3_alphabet": len(alpha3), "label4_alphabet": len(alpha4),
         "pool_labels": len(POOL), "pool_max_labels": 3,
         "text_origins": [None if o is None else show(o) for o in ORIGINS],
         "tokenizer_delimiters": DELIMS,
         "parse_alphabet": [a.decode() for a in PARSE_ALPHA], "parse_max_len": parse_len,
+        "parse_extra": None if q else {"alphabet": [a.decode() for a in PARSE_ALPHA_LONG], "len": parse_len + 1},
         "ddd_values": 1000, "x_values": 256,
         "label_lengths": "0..64", "composition_totals": "250..258", "compositions": len(comps),
         "composition_fills": len(FILL if not q else FILL[:2]),
@@ -1004,6 +1016,7 @@ def run(ctx):
         "compress_triples": "depth<=2 names (13^3)" if q else "all depth<=3 names (40^3)",
         "compress_bases": cbases,
         "wire_alphabet": ["%02x" % c for c in WIRE_ALPHA], "wire_max_len": wire_len,
+        "wire_extra": None if q else {"alphabet": ["%02x" % c for c in WIRE_ALPHA_LONG], "len": wire_len + 1},
         "pointer_graphs": [{"cells": k, "bases": list(b), "graphs_per_base": (k + 2) ** k} for k, b in graphs],
     })
     ctx.pmap(work, tasks)
